@@ -9,12 +9,12 @@ import (
 	"sync/atomic"
 
 	"gopkg.in/yaml.v2"
-	"verifharness/c20lib"
+	"verifharness/c11lib"
 )
 
 type target struct {
 	http *httptest.Server
-	grpc *c20lib.Server
+	grpc *c11lib.Server
 	hits atomic.Int64
 }
 
@@ -29,7 +29,7 @@ func (t *target) stop() {
 
 func (t *target) served() int64 {
 	if t.grpc != nil {
-		return int64(len(t.grpc.Calls()))
+		return t.grpc.Calls()
 	}
 	return t.hits.Load()
 }
@@ -37,7 +37,7 @@ func (t *target) served() int64 {
 func newTarget(kind string) (*target, string, error) {
 	t := &target{}
 	if strings.HasPrefix(kind, "grpc") {
-		s, err := c20lib.StartServer()
+		s, err := c11lib.StartServer()
 		if err != nil {
 			return nil, "", err
 		}
@@ -58,7 +58,7 @@ func usersCSV() string {
 	for i := 1; i <= 7; i++ {
 		fmt.Fprintf(&b, "%d,%d\n", i, i)
 	}
-	return c20lib.WriteFile(".csv", b.String())
+	return c11lib.WriteFile(".csv", b.String())
 }
 
 func httpScenarioFile() string {
@@ -92,7 +92,7 @@ func httpScenarioFile() string {
 		},
 	}
 	b, _ := yaml.Marshal(cfg)
-	return c20lib.WriteFile(".yaml", string(b))
+	return c11lib.WriteFile(".yaml", string(b))
 }
 
 func grpcScenarioFile() string {
@@ -130,7 +130,7 @@ func grpcScenarioFile() string {
 		},
 	}
 	b, _ := yaml.Marshal(cfg)
-	return c20lib.WriteFile(".yaml", string(b))
+	return c11lib.WriteFile(".yaml", string(b))
 }
 
 func rawAmmo() string {
@@ -163,16 +163,16 @@ func poolYAML(kind, addr string, kv map[string]string, n int, rps map[string]any
 		switch kind {
 		case "uri":
 			ammo["type"] = "uri"
-			ammo["file"] = c20lib.WriteFile(".uri", "[Host: example.org]\n[X-A: a]\n/one t1\n/two t2\n[X-B: b]\n/three\n/four t4\n")
+			ammo["file"] = c11lib.WriteFile(".uri", "[Host: example.org]\n[X-A: a]\n/one t1\n/two t2\n[X-B: b]\n/three\n/four t4\n")
 		case "uripost":
 			ammo["type"] = "uripost"
-			ammo["file"] = c20lib.WriteFile(".uripost", "[X-A: a]\n5 /p1 t1\nhello\n7 /p2 t2\nworld!!\n[X-B: b]\n3 /p3\nabc\n")
+			ammo["file"] = c11lib.WriteFile(".uripost", "[X-A: a]\n5 /p1 t1\nhello\n7 /p2 t2\nworld!!\n[X-B: b]\n3 /p3\nabc\n")
 		case "raw":
 			ammo["type"] = "raw"
-			ammo["file"] = c20lib.WriteFile(".raw", rawAmmo())
+			ammo["file"] = c11lib.WriteFile(".raw", rawAmmo())
 		case "httpjson":
 			ammo["type"] = "http/json"
-			ammo["file"] = c20lib.WriteFile(".jsonl",
+			ammo["file"] = c11lib.WriteFile(".jsonl",
 				`{"host":"example.org","method":"GET","uri":"/j1","tag":"t1","headers":{"X-A":"a","X-B":"b"}}`+"\n"+
 					`{"host":"example.org","method":"POST","uri":"/j2","tag":"t2","headers":{"X-A":"a"},"body":"hello"}`+"\n"+
 					`{"host":"example.org","method":"GET","uri":"/j3","tag":"t3"}`+"\n")
@@ -191,15 +191,20 @@ func poolYAML(kind, addr string, kv map[string]string, n int, rps map[string]any
 			gun["shared-client"] = map[string]any{"enabled": true, "client-number": sc}
 		}
 		ammo["type"] = "grpc/json"
-		ammo["file"] = c20lib.WriteFile(".jsonl",
+		ammo["file"] = c11lib.WriteFile(".jsonl",
 			`{"tag":"a","call":"target.TargetService.Hello","metadata":{"k":"v","auth":"Bearer x"},"payload":{"name":"bob"}}`+"\n"+
 				`{"tag":"b","call":"target.TargetService.Auth","metadata":{"k":"w"},"payload":{"login":"1","pass":"1"}}`+"\n"+
 				`{"tag":"c","call":"target.TargetService.Nope","metadata":{},"payload":{}}`+"\n"+
 				`{"tag":"d","call":"target.TargetService.List","metadata":{"k":"v"},"payload":{"user_id":5,"token":"x"}}`+"\n")
 	}
+	result := map[string]any{"type": "discard"}
+	if kv["agg"] == "phout" {
+		// the real phout aggregator: reported samples go back to the package-level sample pool
+		result = map[string]any{"type": "phout", "destination": c11lib.WriteFile(".phout", "")}
+	}
 	pool := map[string]any{
 		"id": "P", "gun": gun, "ammo": ammo,
-		"result":  map[string]any{"type": "discard"},
+		"result":  result,
 		"rps":     []any{rps},
 		"startup": map[string]any{"type": "once", "times": n},
 	}
